@@ -77,6 +77,7 @@ class TreeFn:
         self.recursive = spec.get("recursive", False)
         self.fuel = "fuel"          # name of the fuel variable in scope for recursive calls
         self.want = None            # element type wanted for an empty list literal (from the annotation of the assignment)
+        self.known_params = {}
 
     def fail(self, node, why):
         raise Untranslatable(f"{self.src_name}:{getattr(node, 'lineno', '?')}: {why}: {ast.unparse(node)[:90]}")
@@ -385,6 +386,11 @@ class TreeFn:
                     and ("nonempty:" + ast.dump(e.args[0])) in env:
                 hd, tl = env["nonempty:" + ast.dump(e.args[0])]
                 return f"(py_max_by (fun t_ => depth m (t_src t_)) {hd} {tl})", "trn"
+            if f.id == "sorted" and len(e.args) == 1 and set(kw) == {"key", "reverse"} and self.lambda_is(kw["key"], "depth_id") \
+                    and isinstance(kw["reverse"], ast.Constant) and kw["reverse"].value is True:
+                a, ta = self.expr(e.args[0], env)
+                if ta == "nodes":
+                    return f"(rev (sort_by (lt_depth_id m) {a}))", "nodes"
             if f.id == "sorted" and len(e.args) == 1 and set(kw) == {"key"} and self.lambda_is(kw["key"], "depth_id"):
                 a, ta = self.expr(e.args[0], env)
                 if ta == "nodes":
@@ -394,9 +400,17 @@ class TreeFn:
                 if ta == "nodes":
                     return f"(max_depth m {a})", "optnode"
             self.fail(e, "call")
+        if isinstance(f, ast.Attribute) and isinstance(f.value, ast.Name) and f.value.id == "self" and f.attr in self.known and kw:
+            # keyword arguments of a translated function: put them in the order of its parameters
+            names = self.known_params.get(f.attr, [])
+            if len(e.args) + len(kw) != len(names) or any(k not in names[len(e.args):] for k in kw):
+                self.fail(e, "keyword arguments")
+            e = ast.Call(func=f, args=list(e.args) + [kw[n] for n in names[len(e.args):]], keywords=[])
+            kw = {}
         if isinstance(f, ast.Attribute) and isinstance(f.value, ast.Name) and f.value.id == "self" and not kw:
             name = f.attr
-            args = [self.expr(a, env) for a in e.args]
+            args = [((self.v(a.id + "_source"), "trans") if isinstance(a, ast.Name) and env.get(a.id) == "trans" else self.expr(a, env))
+                    for a in e.args]
             if name == "_matching_descriptors" and len(args) == 2 and args[0][1] == "onmap" and args[1][1] == "str":
                 return f"(matching_descriptors (map fst {args[0][0]}) {args[1][0]})", "strs"
             if name == "_is_descendant" and len(args) == 2 and args[0][1] == "node" and args[1][1] in ("node", "optnode"):
@@ -414,9 +428,9 @@ class TreeFn:
                 return f"({self.coqname} {self.fuel} m {self.ctx_args()}{' '.join(c for c, _ in args)})", self.ret
             if name in self.known:
                 cname, ptys, rty, needs = self.known[name]
+                args = [(c, t) for c, t in args if t != "cache"]
                 if [t for _, t in args] != ptys:
                     self.fail(e, f"argument types of {name}")
-                args = [(c, t) for c, t in args if t != "cache"]
                 extra = "".join(x + " " for x in needs)
                 return f"({cname} m {extra}{' '.join(c for c, _ in args)})", rty
             self.fail(e, "method call")
@@ -954,6 +968,7 @@ def translate_all(src_root=None):
     out = ["(* GENERATED by harness/py2coq_tree.py from the current source tree - do not edit *)",
            "From XSM Require Import Model.TreeLib Gen.GenTree Gen.GenMatch.", ""]
     known = {}
+    known_params = {}
     for spec in SPECS:
         fdefs = [n for n in body if isinstance(n, ast.FunctionDef) and n.name == spec["func"]]
         if len(fdefs) != 1:
@@ -962,9 +977,133 @@ def translate_all(src_root=None):
         seg = ast.get_source_segment(text, fdef) or ""
         digest = hashlib.sha256(seg.encode()).hexdigest()[:16]
         fn = TreeFn(fdef, spec, f"{FILE}:{spec['func']}", known)
+        fn.known_params = known_params
         out.append(f"(* {FILE} :: {spec['func']}  sha256[:16]={digest} *)")
         out.append(fn.translate())
-        known[spec["func"]] = (spec["coqname"], [t for _, t in spec["params"]], spec["ret"], spec.get("needs", []))
+        known[spec["func"]] = (spec["coqname"], [t for _, t in spec["params"] if t != "cache"], spec["ret"], spec.get("needs", []))
+        known_params[spec["func"]] = [p_ for p_, t in spec["params"] if t != "cache"]
+    out.append(translate_plans(src_root, known, known_params))
+    return "\n".join(out)
+
+
+# ---------------------------------------------------------------------------------------------------------------------
+# the PLAN of an external transition: the pure, geometric statements of _execute_transition (asyncio engine) and of
+# SyncInterpreter._process_single_transition, sliced out of the effects around them
+PLAN_VARS = ("domain", "states_to_exit", "path_to_enter", "history_targets", "combined_path")
+EFFECT_CALLS = ("_exit_states", "_execute_actions", "_enter_states", "_notify_subscribers", "_schedule_state_tasks")
+PLAN_SOURCES = [("base_interpreter.py", "BaseInterpreter", "_execute_transition", "xt"),
+                ("sync_interpreter.py", "SyncInterpreter", "_process_single_transition", "pst")]
+
+
+def _plan_slice(stmts, found, src):
+    def fail(node, why):
+        raise Untranslatable(f"{src}:{getattr(node, 'lineno', '?')}: plan slice: {why}: {ast.unparse(node)[:90]}")
+    out = []
+    for s in stmts:
+        if isinstance(s, ast.Expr) and isinstance(s.value, ast.Constant):
+            continue
+        if isinstance(s, ast.Try):
+            if s.orelse or s.finalbody:
+                fail(s, "try with else / finally")
+            out += _plan_slice(s.body, found, src)
+            for h in s.handlers:          # the rollback: effects only, and it must end by re-raising
+                for n in ast.walk(h):
+                    if isinstance(n, (ast.Assign, ast.AnnAssign, ast.AugAssign)):
+                        fail(n, "assignment inside the rollback handler")
+                if not (h.body and isinstance(h.body[-1], ast.Raise) and h.body[-1].exc is None):
+                    fail(h, "rollback handler does not re-raise")
+            continue
+        if isinstance(s, (ast.Assign, ast.AnnAssign)):
+            tgt = s.targets[0] if isinstance(s, ast.Assign) and len(s.targets) == 1 else getattr(s, "target", None)
+            if isinstance(tgt, ast.Name) and tgt.id in PLAN_VARS:
+                out.append(s)
+                continue
+            if isinstance(tgt, ast.Name) and ast.unparse(s.value) == "self._active_state_nodes.copy()":
+                continue                  # the configuration snapshot used by the rollback
+            fail(s, "assignment to something that is not a plan variable")
+        if isinstance(s, ast.Expr):
+            call = s.value.value if isinstance(s.value, ast.Await) else s.value
+            if isinstance(call, ast.Call) and isinstance(call.func, ast.Attribute):
+                f = call.func
+                if isinstance(f.value, ast.Name) and f.value.id == "logger":
+                    continue
+                if isinstance(f.value, ast.Name) and f.value.id == "self" and f.attr in EFFECT_CALLS:
+                    if f.attr == "_exit_states":
+                        if "exit_order" in found or len(call.args) != 2:
+                            fail(s, "second / malformed _exit_states call")
+                        found["exit_order"] = call.args[0]
+                    if f.attr == "_enter_states":
+                        found["entered"].append(ast.unparse(call.args[0]) if call.args else "?")
+                    if f.attr == "_execute_actions":
+                        found["actions"].append(ast.unparse(call.args[0]) if call.args else "?")
+                    found["order"].append(f.attr)
+                    continue
+                if isinstance(f.value, ast.Name) and f.value.id in ("plug", "plugin") and f.attr == "on_transition":
+                    continue
+            fail(s, "statement that is neither a plan assignment nor a known effect")
+        if isinstance(s, ast.For):
+            if ast.unparse(s.iter) == "self._plugins":
+                _plan_slice(s.body, found, src)
+                continue
+            names = TreeFn.assigned(s.body)
+            if names and all(n in PLAN_VARS for n in names) and not contains(s.body, (ast.Await,)):
+                out.append(s)
+                continue
+            fail(s, "loop")
+        if isinstance(s, ast.If):
+            body = _plan_slice(s.body, found, src)
+            orelse = _plan_slice(s.orelse, found, src)
+            if body or orelse:
+                if not body:
+                    fail(s, "if whose plan part is only in the else branch")
+                out.append(ast.If(test=s.test, body=body, orelse=orelse))
+            continue
+        fail(s, "statement")
+    return out
+
+
+def translate_plans(src_root, known, known_params):
+    """-> Coq text: for each engine's transition routine four functions <prefix>_domain / _exit_order / _path / _combined"""
+    out = []
+    for fname, cls, func, prefix in PLAN_SOURCES:
+        text = open(os.path.join(src_root, fname), encoding="utf-8").read()
+        module = ast.parse(text)
+        fdef = None
+        for n in module.body:
+            if isinstance(n, ast.ClassDef) and n.name == cls:
+                for f in n.body:
+                    if isinstance(f, (ast.FunctionDef, ast.AsyncFunctionDef)) and f.name == func:
+                        fdef = f
+        if fdef is None:
+            raise Untranslatable(f"{fname}: {func} not found")
+        src = f"{fname}:{func}"
+        body = list(fdef.body)
+        start = next((i for i, st in enumerate(body)
+                      if isinstance(st, (ast.Assign, ast.AnnAssign)) and "snapshot_before" in ast.unparse(st).split("=")[0]), None)
+        if start is None:
+            raise Untranslatable(f"{src}: the configuration snapshot that starts the external part was not found")
+        found = dict(entered=[], actions=[], order=[])
+        sliced = _plan_slice(body[start:], found, src)
+        if "exit_order" not in found or found["entered"] != ["path_to_enter", "combined_path"] or found["actions"] != ["transition.actions"] \
+                or found["order"][:4] != ["_exit_states", "_execute_actions", "_enter_states", "_enter_states"]:
+            raise Untranslatable(f"{src}: effects are not exit(order); actions(transition.actions); enter(path_to_enter); "
+                                 f"enter(combined_path): {found['order']} {found['entered']} {found['actions']}")
+        pre = ast.parse("combined_path: List[StateNode] = []").body
+        post = [ast.Assign(targets=[ast.Name(id="exit_order", ctx=ast.Store())], value=found["exit_order"], lineno=0)]
+        seg = ast.get_source_segment(text, fdef) or ""
+        out.append(f"(* {fname} :: {func}  sha256[:16]={hashlib.sha256(seg.encode()).hexdigest()[:16]}: the geometric plan, sliced out of the effects *)")
+        for var, suffix, ret in (("domain", "domain", "optnode"), ("exit_order", "exit_order", "nodes"), ("path_to_enter", "path", "nodes"),
+                                 ("combined_path", "combined", "nodes")):
+            stmts = pre + sliced + post + [ast.Return(value=ast.Name(id=var, ctx=ast.Load()))]
+            synth = ast.FunctionDef(name=func + "_plan", args=ast.arguments(posonlyargs=[], args=[ast.arg(arg="self"), ast.arg(arg="transition"), ast.arg(arg="target_state")],
+                                                                          kwonlyargs=[], kw_defaults=[], defaults=[]),
+                                    body=stmts, decorator_list=[], lineno=fdef.lineno)
+            ast.fix_missing_locations(synth)
+            spec = dict(func=func + "_plan", coqname=f"{prefix}_{suffix}", params=[("transition", "trans"), ("target_state", "node")], ret=ret,
+                        needs=["v_C", "v_H"])
+            fn = TreeFn(synth, spec, src, known)
+            fn.known_params = known_params
+            out.append(fn.translate())
     return "\n".join(out)
 
 
